@@ -195,11 +195,19 @@ func c10Slow(t *tr.Writer, id int, c c10Case) {
 	if c.Fault == "abort-many" {
 		fnMs, execMs, clientMs = 400, 0, 0
 	}
+	// ctx-deadline: the caller's context carries a deadline (20 ms) earlier than the client's Timeout (5 s);
+	// the function does not return before the driver lets it, so a call can only end by its deadline
+	release := make(chan struct{})
+	if c.Fault == "ctx-deadline" {
+		fnMs, execMs, clientMs = 0, 0, 5000
+	}
 	if execMs > 0 {
 		svc.Use(timeout.New(time.Duration(execMs) * time.Millisecond))
 	}
 	svc.AddFunction(func(p string, slow bool) string {
-		if slow {
+		if slow && c.Fault == "ctx-deadline" {
+			<-release
+		} else if slow {
 			time.Sleep(time.Duration(fnMs) * time.Millisecond)
 		}
 		return p
@@ -218,7 +226,13 @@ func c10Slow(t *tr.Writer, id int, c c10Case) {
 	call := func(cc, n int, slow bool, bound int) {
 		t.Emit(tr.Rec{"ev": "callB", "c": cc, "n": n})
 		t0 := time.Now()
-		res, err := client.Invoke("echo", []interface{}{muxPayload(cc, n), slow})
+		ctx := context.Background()
+		if c.Fault == "ctx-deadline" && slow {
+			var cancel context.CancelFunc
+			ctx, cancel = context.WithTimeout(ctx, 20*time.Millisecond)
+			defer cancel()
+		}
+		res, err := client.InvokeContext(ctx, "echo", []interface{}{muxPayload(cc, n), slow})
 		r := muxRet{kind: "resp", rc: -1, rn: -1}
 		if err != nil {
 			r = muxRet{kind: "err", err: err.Error()}
@@ -272,6 +286,16 @@ func c10Slow(t *tr.Writer, id int, c c10Case) {
 			}
 		}(cc)
 	}
+	if c.Fault == "ctx-deadline" {
+		// the callers are back long before this; then the functions are let go
+		back := make(chan struct{})
+		go func() { wg.Wait(); close(back) }()
+		select {
+		case <-back:
+		case <-time.After(4 * time.Second):
+		}
+		close(release)
+	}
 	wg.Wait()
 	// census of request-handling goroutines (idle connections and their loops are not requests): once the
 	// functions have ended none is left in the service's or the client's call path
@@ -311,7 +335,7 @@ func c10Run(t *tr.Writer, id int, c c10Case) {
 		c10ReverseGiveup(t, c)
 		return
 	}
-	if c.Fault == "exec-timeout" || c.Fault == "client-timeout" || c.Fault == "abort-many" {
+	if c.Fault == "exec-timeout" || c.Fault == "client-timeout" || c.Fault == "abort-many" || c.Fault == "ctx-deadline" {
 		c10Slow(t, id, c)
 		return
 	}
@@ -651,6 +675,13 @@ func runC10(a Args) tr.Summary {
 			c10Run(t, id, c)
 			nontrivial[fmt.Sprint(c)] = true
 		}
+	}
+	// the caller's own deadline, on every transport (each client transport has its own way to wait)
+	for _, kind := range []string{"mock", "tcp", "unix", "http", "fasthttp", "ws", "udp"} {
+		id++
+		c := c10Case{Kind: kind, Fault: "ctx-deadline"}
+		c10Run(t, id, c)
+		nontrivial[fmt.Sprint(c)] = true
 	}
 	for _, kind := range []string{"mock", "tcp"} {
 		id++
